@@ -394,6 +394,31 @@ theorem writeFruData_named {σ} (cfg : Cfg) (send : Send σ) (id : Nat) (w : Wor
   · exact h
   · exact writeChunks_named send id _ _ _ h
 
+theorem readFruDataV_named {σ} (rangeFix : Bool) (cfg : Cfg) (send : Send σ) (id : Nat) (w : World σ)
+    (offset count : Option Nat) (h : Named id w.trace) :
+    Named id (readFruDataV rangeFix cfg send w offset count id).w.trace := by
+  unfold readFruDataV
+  cases rangeFix with
+  | false =>
+    simp only [Bool.false_eq_true, if_false]
+    cases offset with
+    | none => exact readFruData_named cfg send id w none 0 h
+    | some off =>
+      cases count with
+      | none => exact h
+      | some c => exact readFruData_named cfg send id w (some off) c h
+  | true =>
+    simp only [if_true]
+    cases count with
+    | some c => exact readFruData_named cfg send id w _ c h
+    | none =>
+      have hx := Named.xchg send id w (infoReq id) h (by simp [infoReq])
+      simp only [readFruDataFixed, areaInfo]
+      generalize FruXfer.xchg send w (infoReq id) = r at hx
+      cases hdec : decodeInfoRsp r.2 with
+      | ok size => exact readLoop_named cfg send id _ _ _ _ _ _ hx
+      | _ => exact hx
+
 theorem getHeader_named {σ} (cfg : Cfg) (send : Send σ) (id : Nat) (w : World σ)
     (h : Named id w.trace) : Named id (getHeader cfg send w id).w.trace := by
   have hx := readFruData_named cfg send id w (some 0) 8 h
@@ -402,13 +427,16 @@ theorem getHeader_named {σ} (cfg : Cfg) (send : Send σ) (id : Nat) (w : World 
   generalize readFruData cfg send w (some 0) 8 id = r at hx
   cases r.out <;> exact hx
 
-theorem readFruArea_named {σ} (cfg : Cfg) (send : Send σ) (lenChk : Bool) (id : Nat) (w : World σ)
+theorem someRes_w {σ} (r : Res σ (List Nat)) : (someRes r).w = r.w := by
+  unfold someRes; cases r.out <;> rfl
+
+theorem readFruArea_named {σ} (cfg : Cfg) (send : Send σ) (v : Var) (id : Nat) (w : World σ)
     (offset : Option Nat) (h : Named id w.trace) :
-    Named id (readFruArea cfg send lenChk w offset id).w.trace := by
-  have hx := readFruData_named cfg send id w offset 5 h
+    Named id (readFruArea cfg send v w offset id).w.trace := by
+  have hx := readFruDataV_named v.rangeFix cfg send id w offset (some 5) h
   unfold readFruArea
   dsimp only
-  generalize readFruData cfg send w offset 5 id = r at hx
+  generalize readFruDataV v.rangeFix cfg send w offset (some 5) id = r at hx
   cases hr : r.out with
   | ok data =>
     simp only
@@ -418,31 +446,35 @@ theorem readFruArea_named {σ} (cfg : Cfg) (send : Send σ) (lenChk : Bool) (id 
       simp only
       split
       · exact hx
-      · exact readFruData_named cfg send id _ _ _ hx
+      · exact readFruDataV_named v.rangeFix cfg send id _ _ _ hx
   | _ => exact hx
 
-theorem getInfoArea_named {σ} (cfg : Cfg) (send : Send σ) (lenChk : Bool) (id : Nat) (w : World σ) (a : Area)
-    (h : Named id w.trace) : Named id (getInfoArea cfg send lenChk w a id).w.trace := by
+theorem getInfoArea_named {σ} (cfg : Cfg) (send : Send σ) (v : Var) (id : Nat) (w : World σ) (a : Area)
+    (h : Named id w.trace) : Named id (getInfoArea cfg send v w a id).w.trace := by
   have hx := getHeader_named cfg send id w h
   unfold getInfoArea
   dsimp only
   generalize getHeader cfg send w id = r at hx
   cases hr : r.out with
-  | ok hd => exact readFruArea_named cfg send lenChk id _ _ hx
+  | ok hd =>
+    simp only
+    split
+    · exact hx
+    · rw [someRes_w]; exact readFruArea_named cfg send v id _ _ hx
   | _ => exact hx
 
-theorem mrWalk_named {σ} (cfg : Cfg) (send : Send σ) (id : Nat) :
+theorem mrWalk_named {σ} (rangeFix : Bool) (cfg : Cfg) (send : Send σ) (id : Nat) :
     ∀ (fuel : Nat) (w : World σ) (offset : Option Nat) (count : Nat),
-      Named id w.trace → Named id (mrWalk cfg send fuel w id offset count).w.trace := by
+      Named id w.trace → Named id (mrWalk rangeFix cfg send fuel w id offset count).w.trace := by
   intro fuel
   induction fuel with
   | zero => intro w offset count h; simpa [mrWalk] using h
   | succ fuel ih =>
     intro w offset count h
-    have hx := readFruData_named cfg send id w offset 5 h
+    have hx := readFruDataV_named rangeFix cfg send id w offset (some 5) h
     unfold mrWalk
     dsimp only
-    generalize readFruData cfg send w offset 5 id = r at hx
+    generalize readFruDataV rangeFix cfg send w offset (some 5) id = r at hx
     split
     · split
       · split
@@ -453,38 +485,37 @@ theorem mrWalk_named {σ} (cfg : Cfg) (send : Send σ) (id : Nat) :
       · exact hx
     · exact hx
 
-/-- The intended `get_fru_multirecord_area` names the caller's FRU in every request. -/
-theorem getMultirecord_named {σ} (cfg : Cfg) (send : Send σ) (id : Nat) (w : World σ)
-    (h : Named id w.trace) : Named id (getMultirecord cfg send false w id).w.trace := by
+/-- `get_fru_multirecord_area` with the FRU id passed on (fixes/C10-1.diff) names the caller's FRU in every
+request - with and without the absent-area guard and the range repair. -/
+theorem getMultirecord_named {σ} (cfg : Cfg) (send : Send σ) (v : Var) (hv : v.mrShipped = false) (id : Nat)
+    (w : World σ) (h : Named id w.trace) : Named id (getMultirecord cfg send v w id).w.trace := by
   have hx := getHeader_named cfg send id w h
   unfold getMultirecord
-  simp only [Bool.false_eq_true, if_false]
+  simp only [hv, Bool.false_eq_true, if_false]
   generalize getHeader cfg send w id = r at hx
   cases hr : r.out with
   | ok hd =>
     simp only
-    have hy := mrWalk_named cfg send id mrFuel r.w hd.multi 0 hx
-    generalize mrWalk cfg send mrFuel r.w id hd.multi 0 = c at hy
-    cases hc : c.out with
-    | ok count => exact readFruData_named cfg send id _ _ _ hy
-    | _ => exact hy
+    split
+    · exact hx
+    · have hy := mrWalk_named v.rangeFix cfg send id mrFuel r.w hd.multi 0 hx
+      generalize mrWalk v.rangeFix cfg send mrFuel r.w id hd.multi 0 = c at hy
+      cases hc : c.out with
+      | ok count => simp only; rw [someRes_w]; exact readFruDataV_named v.rangeFix cfg send id _ _ _ hy
+      | _ => exact hy
   | _ => exact hx
 
-theorem optArea_named {σ} (id : Nat) (present : Bool) (w : World σ) (f : World σ → Res σ (List Nat))
+theorem optArea_named {σ} (id : Nat) (present : Bool) (w : World σ) (f : World σ → Res σ (Option (List Nat)))
     (hf : ∀ w, Named id w.trace → Named id (f w).w.trace) (h : Named id w.trace) :
     Named id (optArea present w f).w.trace := by
   unfold optArea
   cases present with
   | false => exact h
-  | true =>
-    simp only [if_true]
-    have hx := hf w h
-    generalize f w = r at hx
-    cases r.out <;> exact hx
+  | true => simpa using hf w h
 
-/-- The intended `get_fru_inventory`: every request of every part names the caller's FRU. -/
-theorem getInventory_named {σ} (cfg : Cfg) (send : Send σ) (lenChk : Bool) (id : Nat) (w : World σ)
-    (h : Named id w.trace) : Named id (getInventory cfg send false lenChk w id).w.trace := by
+/-- `get_fru_inventory` (FRU id passed on): every request of every part names the caller's FRU. -/
+theorem getInventory_named {σ} (cfg : Cfg) (send : Send σ) (v : Var) (hv : v.mrShipped = false) (id : Nat)
+    (w : World σ) (h : Named id w.trace) : Named id (getInventory cfg send v w id).w.trace := by
   have hx := getHeader_named cfg send id w h
   unfold getInventory
   dsimp only
@@ -492,27 +523,27 @@ theorem getInventory_named {σ} (cfg : Cfg) (send : Send σ) (lenChk : Bool) (id
   cases hr : r.out with
   | ok hd =>
     simp only
-    have h1 := optArea_named id hd.chassis.isSome r.w (fun w => getInfoArea cfg send lenChk w .chassis id)
-      (fun w hw => getInfoArea_named cfg send lenChk id w _ hw) hx
-    generalize optArea hd.chassis.isSome r.w (fun w => getInfoArea cfg send lenChk w .chassis id) = c at h1
+    have h1 := optArea_named id hd.chassis.isSome r.w (fun w => getInfoArea cfg send v w .chassis id)
+      (fun w hw => getInfoArea_named cfg send v id w _ hw) hx
+    generalize optArea hd.chassis.isSome r.w (fun w => getInfoArea cfg send v w .chassis id) = c at h1
     cases hc : c.out with
     | ok ch =>
       simp only
-      have h2 := optArea_named id hd.board.isSome c.w (fun w => getInfoArea cfg send lenChk w .board id)
-        (fun w hw => getInfoArea_named cfg send lenChk id w _ hw) h1
-      generalize optArea hd.board.isSome c.w (fun w => getInfoArea cfg send lenChk w .board id) = b at h2
+      have h2 := optArea_named id hd.board.isSome c.w (fun w => getInfoArea cfg send v w .board id)
+        (fun w hw => getInfoArea_named cfg send v id w _ hw) h1
+      generalize optArea hd.board.isSome c.w (fun w => getInfoArea cfg send v w .board id) = b at h2
       cases hb : b.out with
       | ok bo =>
         simp only
-        have h3 := optArea_named id hd.product.isSome b.w (fun w => getInfoArea cfg send lenChk w .product id)
-          (fun w hw => getInfoArea_named cfg send lenChk id w _ hw) h2
-        generalize optArea hd.product.isSome b.w (fun w => getInfoArea cfg send lenChk w .product id) = p at h3
+        have h3 := optArea_named id hd.product.isSome b.w (fun w => getInfoArea cfg send v w .product id)
+          (fun w hw => getInfoArea_named cfg send v id w _ hw) h2
+        generalize optArea hd.product.isSome b.w (fun w => getInfoArea cfg send v w .product id) = p at h3
         cases hp : p.out with
         | ok pr =>
           simp only
-          have h4 := optArea_named id hd.multi.isSome p.w (fun w => getMultirecord cfg send false w id)
-            (fun w hw => getMultirecord_named cfg send id w hw) h3
-          generalize optArea hd.multi.isSome p.w (fun w => getMultirecord cfg send false w id) = m at h4
+          have h4 := optArea_named id hd.multi.isSome p.w (fun w => getMultirecord cfg send v w id)
+            (fun w hw => getMultirecord_named cfg send v hv id w hw) h3
+          generalize optArea hd.multi.isSome p.w (fun w => getMultirecord cfg send v w id) = m at h4
           cases hm : m.out <;> exact h4
         | _ => exact h3
       | _ => exact h2
